@@ -85,6 +85,11 @@ def _grid_in_domain(proj, x0, y0, x1, y1):
                 lo, la = p(x, y, inverse=True, errcheck=True)
                 if not (np.isfinite(lo) and np.isfinite(la)):
                     return False
+                # ... and come back to the same place: transverse projections return finite lon/lat for y beyond the pole, but
+                # of another point (a grid 45 000 km "north" in UTM is not a grid of that CRS)
+                bx, by = p(lo, la, errcheck=True)
+                if not (abs(bx - x) <= 1e-6 * max(1.0, abs(x)) and abs(by - y) <= 1e-6 * max(1.0, abs(y))):
+                    return False
         return True
     except Exception:  # noqa
         return False
@@ -204,13 +209,22 @@ def suite_create(ctx):
             ctx.case("missing", (cname, miss_name, x0), nontrivial=True)
     # geographic CRS, degrees
     for gname, proj in GEOG:
-        for _ in range(3 if ctx.quick else 20):
+        for rep in range(9 if ctx.quick else 45):
             h, w = r.randrange(1, 30), r.randrange(1, 30)
             px = r.choice([0.125, 0.25, 0.5, 1.0])
-            x0, y0 = r.randrange(-170, 100) * 1.0, r.randrange(-80, 40) * 1.0
+            kind = ("inside", "west", "east")[rep % 3]
+            # longitudes may leave -180..180 on either side (0..360 grids, regions over the antimeridian): the grid is
+            # defined by its extent in degrees, whatever the description it is built from (finding F37: centre - radius
+            # below -180 was wrapped by the projection)
+            x0, y0 = r.randrange(-175, 140) * 1.0, r.randrange(-80, 40) * 1.0
+            if kind == "west":
+                x0 = r.randrange(-215, -180) * 1.0 - r.choice([0.0, 0.5])
+            elif kind == "east":
+                x0 = 180.0 - w * px + r.randrange(1, 30) * px
             x1, y1 = x0 + w * px, y0 + h * px
-            if x1 > 180 or y1 > 90:
+            if y1 > 90:
                 continue
+            ctx.count("create.geographic." + ("west_of_-180" if x0 < -180 else "east_of_180" if x1 > 180 else "inside"))
             with warnings.catch_warnings():
                 warnings.simplefilter("ignore")
                 ref = create_area_def("ref", proj, area_extent=(x0, y0, x1, y1), shape=(h, w))
@@ -220,10 +234,12 @@ def suite_create(ctx):
                             a = create_area_def("a", proj, units=units, **kw)
                             if not _same_grid(a, ref):
                                 ctx.fail("area_config.create_area_def", "geographic CRS: this description does not give the same grid",
-                                         {"crs": gname, "description": dname, "units": units}, size=5)
+                                         {"crs": gname, "description": dname, "units": units, "extent": [x0, y0, x1, y1], "shape": [h, w],
+                                          "given": {k: list(v) if isinstance(v, tuple) else v for k, v in kw.items()}},
+                                         observed={"extent": list(getattr(a, "area_extent", []) or []), "shape": list(getattr(a, "shape", []) or [])}, size=5)
                         except Exception as e:  # noqa
                             ctx.fail("area_config.create_area_def", f"geographic CRS: raised {type(e).__name__}: {str(e)[:100]}",
-                                     {"crs": gname, "description": dname, "units": units}, size=5)
+                                     {"crs": gname, "description": dname, "units": units, "extent": [x0, y0, x1, y1], "shape": [h, w]}, size=5)
                         ctx.case("create.geographic", (gname, dname, units, x0, y0, h, w), nontrivial=True)
 
 
